@@ -15,8 +15,10 @@
 
 enum FaultKind { FK_NONE = 0, FK_NAN_VALUE, FK_PINF_VALUE, FK_NINF_VALUE, FK_ZERO_DERIVATIVE, FK_NAN_DERIVATIVE, FK_INF_DERIVATIVE, FK_COUNT };
 static const char* fk_name[] = {"none", "NaN-value", "+inf-value", "-inf-value", "zero-derivative", "NaN-derivative", "+inf-derivative"};
-enum { NFUN = 6, NBRACKET = 5, NX0 = 3, NCRIT = 2, NREGION = 3 };
-static const char* fun_name[] = {"x-1", "x^3-2x-5", "atan(x)", "exp(x)-2", "x^2-4", "sign(x)sqrt|x|"};
+enum { NFUN = 8, NBRACKET = 5, NX0 = 3, NCRIT = 2, NREGION = 3 };
+static const char* fun_name[] = {"x-1", "x^3-2x-5", "atan(x)", "exp(x)-2", "x^2-4", "sign(x)sqrt|x|", "1e-310*(x-1) on a bracket of width 3e9", "tanh(1e3(x-0.1))+1e-16 (root within one ulp of the upper bound 0.1)"};
+// the last two exercise the bracket arithmetic itself: a secant slope that overflows (subnormal values, huge width) and a secant root that
+// rounds just above the upper bound
 static const char* bracket_name[] = {"none", "valid", "valid-reversed", "invalid-same-sign", "one-sided"};
 static const char* region_name[] = {"none", "NaN-right-of-root", "NaN-left-of-bracket-middle"};
 
@@ -25,7 +27,7 @@ struct FCall { double x, v, d; bool faulted; };
 struct CCall { double fv, dx, x; long i; bool result; };
 struct Log { std::vector<FCall> f; std::vector<CCall> c; };
 
-static double root_of(int fun) { static const double r[] = {1.0, 2.0945514815423265, 0.0, 0.6931471805599453, 2.0, 0.0}; return r[fun]; }
+static double root_of(int fun) { static const double r[] = {1.0, 2.0945514815423265, 0.0, 0.6931471805599453, 2.0, 0.0, 1.0, 0.1}; return r[fun]; }
 static void eval(int fun, double x, double& v, double& d) {
   switch (fun) {
     case 0: v = x - 1; d = 1; break;
@@ -33,12 +35,14 @@ static void eval(int fun, double x, double& v, double& d) {
     case 2: v = std::atan(x); d = 1 / (1 + x * x); break;
     case 3: v = std::exp(x) - 2; d = std::exp(x); break;
     case 4: v = x * x - 4; d = 2 * x; break;
-    default: v = (x < 0 ? -1 : 1) * std::sqrt(std::fabs(x)); d = 1 / (2 * std::sqrt(std::fabs(x))); break;
+    case 5: v = (x < 0 ? -1 : 1) * std::sqrt(std::fabs(x)); d = 1 / (2 * std::sqrt(std::fabs(x))); break;
+    case 6: v = 1e-310 * (x - 1); d = 1e-310; break;
+    default: { const double t = std::tanh(1e3 * (x - 0.1)); v = t + 1e-16; d = 1e3 * (1 - t * t); } break;
   }
 }
 static void bracket_of(int fun, int b, double& lo, double& hi) {
   // ends chosen so that the function is finite, non-zero and of opposite signs for the valid brackets
-  static const double L[] = {-3, 1, -5, -2, 0.5, -4}, H[] = {6, 4, 3, 3, 5, 9};
+  static const double L[] = {-3, 1, -5, -2, 0.5, -4, -1e9, -2}, H[] = {6, 4, 3, 3, 5, 9, 2e9, 0.1};
   const double nan = std::numeric_limits<double>::quiet_NaN();
   switch (b) {
     case 1: lo = L[fun]; hi = H[fun]; break;
@@ -49,8 +53,8 @@ static void bracket_of(int fun, int b, double& lo, double& hi) {
   }
 }
 static double x0_of(int fun, int k) {
-  static const double inside[] = {2.5, 3.0, 2.0, 1.5, 0.0 + 1e-300, 4.0};
-  static const double outside[] = {20, -6, 8, -7, -9, 30};
+  static const double inside[] = {2.5, 3.0, 2.0, 1.5, 0.0 + 1e-300, 4.0, 2.5, -1.0};
+  static const double outside[] = {20, -6, 8, -7, -9, 30, 3e9, 0.5};
   if (k == 0) return (fun == 4) ? 1.0 : inside[fun];
   if (k == 1) return outside[fun];
   return (fun == 4) ? 0.0 : root_of(fun) + 1e-3;   // flat derivative at the start for x^2-4, close to the root otherwise
